@@ -1,37 +1,45 @@
 ------------------------------ MODULE PacHelpers ------------------------------
-(* Reference semantics of the PAC helpers over character sequences               *)
-(* (pac/ascii_pac_utils.js, pac/pac_ipv4.go, pac/pac_ipv6.go), on the argument    *)
-(* domain where the Netscape text and the Mozilla/Chromium implementations agree. *)
-EXTENDS Integers, Sequences, FiniteSets, TLC, SequencesExt, Json
+(* Case generator and sanity checks over the reference semantics in PacOps (C14). *)
+EXTENDS PacOps
 
-Alphabet == {"a", "b", "."}
-PatAlphabet == Alphabet \cup {"*", "?"}
-Strs(A, n) == UNION {[1..k -> A] : k \in 0..n}
+CONSTANTS MaxLen,      \* string helper arguments: maximal length
+          NetSample    \* number of random (host, pattern, mask) triples for isInNet; 0 = structured set only
 
-\* shExpMatch: '*' any run (incl. empty), '?' exactly one character, everything else literal
-RECURSIVE Glob(_, _)
-Glob(s, p) ==
-  IF p = <<>> THEN s = <<>>
-  ELSE IF Head(p) = "*" THEN Glob(s, Tail(p)) \/ (s # <<>> /\ Glob(Tail(s), p))
-  ELSE s # <<>> /\ (Head(p) = "?" \/ Head(p) = Head(s)) /\ Glob(Tail(s), Tail(p))
+VARIABLES fn, a1, a2, a3, res
+vars == <<fn, a1, a2, a3, res>>
 
-IsSuffixSeq(suf, s) == Len(suf) <= Len(s) /\ SubSeq(s, Len(s) - Len(suf) + 1, Len(s)) = suf
-IsPrefixSeq(pre, s) == Len(pre) <= Len(s) /\ SubSeq(s, 1, Len(pre)) = pre
+InitStr == /\ fn \in {"shExpMatch", "dnsDomainIs", "localHostOrDomainIs"}
+           /\ a1 \in Strs(Alphabet, MaxLen)
+           /\ a2 \in IF fn = "shExpMatch" THEN Strs(PatAlphabet, MaxLen) ELSE Strs(Alphabet, MaxLen)
+           /\ a3 = <<>>
+           /\ res = CASE fn = "shExpMatch" -> Glob(a1, a2)
+                      [] fn = "dnsDomainIs" -> dnsDomainIs(a1, a2)
+                      [] fn = "localHostOrDomainIs" -> localHostOrDomainIs(a1, a2)
+InitStr1 == /\ fn \in {"isPlainHostName", "dnsDomainLevels"}
+            /\ a1 \in Strs(Alphabet, MaxLen + 1) /\ a2 = <<>> /\ a3 = <<>>
+            /\ res = IF fn = "isPlainHostName" THEN isPlainHostName(a1) ELSE dnsDomainLevels(a1)
+NetTriples == IF NetSample = 0 THEN { <<i, p, m>> \in {<<10,11,192,10>>, <<10,11,10,10>>, <<192,10,10,11>>} \X IPs \X Masks : TRUE }
+              ELSE RandomSubset(NetSample, IPs \X IPs \X Masks)
+InitNet == /\ fn = "isInNet" /\ \E t \in NetTriples : a1 = t[1] /\ a2 = t[2] /\ a3 = t[3]
+           /\ res = isInNetIP(a1, a2, a3)
+InitNetName == /\ fn = "isInNetName" /\ a1 \in DnsNames /\ a2 \in {<<10,11,0,0>>, <<192,10,10,11>>, <<11,11,11,11>>}
+               /\ a3 \in Masks /\ res = isInNetName(a1, a2, a3)
+InitNetEx == /\ fn = "isInNetEx" /\ a1 \in {<<10,11,192,10>>, <<10,10,10,10>>, <<192,10,10,11>>, <<11,192,10,10>>}
+             /\ a2 \in {<<10,11,192,10>>, <<10,11,0,0>>, <<10,0,0,0>>, <<0,0,0,0>>, <<192,10,10,10>>, <<11,192,0,0>>}
+             /\ a3 \in Prefixes4 /\ res = isInNetEx4(a1, a2, a3)
+InitSort == /\ fn = "sortIpAddressList" /\ a1 \in AddrLists /\ a2 = <<>> /\ a3 = <<>> /\ res = SortAddrs(a1)
+InitDns == /\ fn \in {"dnsResolve", "isResolvable"} /\ a1 \in DnsNames /\ a2 = <<>> /\ a3 = <<>>
+           /\ res = IF fn = "dnsResolve" THEN Dns(a1) ELSE (Dns(a1) # <<>>)
+Init == InitStr \/ InitStr1 \/ InitNet \/ InitNetName \/ InitNetEx \/ InitSort \/ InitDns
+Next == FALSE /\ UNCHANGED vars
 
-dnsDomainIs(host, domain)        == IsSuffixSeq(domain, host)
-isPlainHostName(host)            == \A i \in 1..Len(host) : host[i] # "."
-dnsDomainLevels(host)            == Cardinality({i \in 1..Len(host) : host[i] = "."})
-localHostOrDomainIs(host, hd)    == host = hd \/ IsPrefixSeq(host \o <<".">>, hd)
-
-Str(s) == FoldLeft(LAMBDA acc, c : acc \o c, "", s)
-
-VARIABLES fn, a1, a2, res
-Init == /\ fn \in {"shExpMatch", "dnsDomainIs", "localHostOrDomainIs"}
-        /\ a1 \in Strs(Alphabet, 4)
-        /\ a2 \in IF fn = "shExpMatch" THEN Strs(PatAlphabet, 4) ELSE Strs(Alphabet, 4)
-        /\ res = CASE fn = "shExpMatch" -> Glob(a1, a2)
-                   [] fn = "dnsDomainIs" -> dnsDomainIs(a1, a2)
-                   [] fn = "localHostOrDomainIs" -> localHostOrDomainIs(a1, a2)
-Next == FALSE /\ UNCHANGED <<fn, a1, a2, res>>
-Emit == PrintT(ToJson([fn |-> fn, a1 |-> a1, a2 |-> a2, res |-> res]))
+\* meta-properties of the reference semantics (sanity of the oracle itself)
+GlobStarMatchesAll == fn = "shExpMatch" /\ a2 = <<"*">> => res = TRUE
+GlobLiteral == fn = "shExpMatch" /\ (\A i \in 1..Len(a2) : a2[i] \notin {"*", "?"}) => (res = (a1 = a2))
+DomainIsReflexive == fn = "dnsDomainIs" /\ a1 = a2 => res = TRUE
+MaskZeroMatchesAll == fn = "isInNet" /\ a3 = <<0,0,0,0>> => res = TRUE
+MaskFullIsEquality == fn = "isInNet" /\ a3 = <<255,255,255,255>> => (res = (a1 = a2))
+SortIsPermutation == fn = "sortIpAddressList" => Range(res) = Range(a1) /\ Len(res) = Len(a1)
+SortOrdered == fn = "sortIpAddressList" => \A i \in 1..(Len(res) - 1) : Before(res[i], res[i + 1])
+Emit == PrintT(ToJson([fn |-> fn, a1 |-> a1, a2 |-> a2, a3 |-> a3, res |-> res]))
 ==============================================================================
